@@ -365,6 +365,10 @@ def proof_isaac(fn):
                     f"\n    funext a b c d e f g h; exact ExtTie.{G}.mix a b c d e f g h"
                     f"\n  exact (show Ext.{G}.init mem rounds = ExtShape.{G}.init Ext.{G}.mix mem rounds from rfl).trans"
                     f"\n    (by rw [hm]; exact ExtShape.{G}.init_eq mem rounds)")
+        if fn in ("from_rng", "try_from_rng"):
+            return (f"\n  intro ρ fill src"
+                    f"\n  simp only [Ext.{G}.{fn}{_unf(G)}, ExtTie.{G}.init, Isaac.coreFromRng{w}, foldl_wr_rd_self]"
+                    f"\n  rfl")
         # from_seed / seed_from_u64: the translated `init` is replaced by the model's; the key array (`[w(0); RAND_SIZE]` with
         # the first words stored one by one) is the model's zero-extension `extend` (lemmas Isaac.extend_writes*)
         return (f"\n  intro x"
@@ -378,6 +382,9 @@ HEAVY = {"hc_generate": 2000000, "hc_sixteen_steps": 2000000}
 PROOFS.update({"hc_generate": proof_hc_generate, "hc_sixteen_steps": proof_hc_sixteen, "hc_init": proof_hc_init,
                "hc_from_seed": proof_hc_from_seed, "isaac_generate": proof_isaac("generate"), "isaac_init": proof_isaac("init"),
                "isaac_from_seed": proof_isaac("from_seed"), "isaac_seed_from_u64": proof_isaac("seed_from_u64")})
+def _proof_from_rng(name):
+    return proof_isaac(name.split(".")[1])(name)
+PROOFS["isaac_from_rng"] = _proof_from_rng
 
 
 HEADER = """/-
@@ -700,7 +707,9 @@ def isaac_theorems(u, done, skipped=None):
         "rngstep": (None, [(A, True), (A, True), (W, False), (W, True), (W, True), (N, False), (N, False), (N, False)], None),
         "mix": (None, [(W, True)] * 8, None), "generate": ("mut", [(A, True)], None),
         "init": (None, [(A, False), ("u32", False)], SELF), "from_seed": (None, [(("arr", "u8", 32), False)], SELF),
-        "seed_from_u64": (None, [("u64", False)], SELF)})
+        "seed_from_u64": (None, [("u64", False)], SELF),
+        "from_rng": (None, [(("named", "implRngCore"), True)], SELF),
+        "try_from_rng": (None, [(("named", "R"), True)], ("named", "Result<Self,R::Error>"))})
     th = []
     def add(fn, stmt, props, key=None):
         if fn in done:
@@ -714,6 +723,10 @@ def isaac_theorems(u, done, skipped=None):
     add("init", f"∀ mem rounds, {E}.init mem rounds = Isaac.init {P} mem rounds.toNat", ["C03"])
     add("from_seed", f"∀ seed, {E}.from_seed seed = Isaac.fromSeedCore{w} seed", ["C03", "C09"])
     add("seed_from_u64", f"∀ x, {E}.seed_from_u64 x = Isaac.seedFromU64Core{w} x", ["C03", "C09"])
+    # the cores' from_rng / try_from_rng (the `unsafe` byte view of the seed array is the primitive rs2lean.FnTr.unsafe_fill);
+    # Isaac.fromRng32_eq_core … (ExtTieBlock) relate coreFromRng to the model's constructors of the wrappers
+    add("from_rng", f"∀ {{ρ : Type}} (fill : TryFill ρ) (src : ρ), {E}.from_rng fill src = Isaac.coreFromRng{w} fill src", ["C03", "C09"], "isaac_from_rng")
+    add("try_from_rng", f"∀ {{ρ : Type}} (fill : TryFill ρ) (src : ρ), {E}.try_from_rng fill src = Isaac.coreFromRng{w} fill src", ["C03", "C09"], "isaac_from_rng")
     return th
 
 def jitter_theorems(u, done):
